@@ -257,3 +257,129 @@ pub fn c06_native<G: AffineRepr + 'static>(shape: &crate::r1cs::Shape, seed: u64
     let (checks, _raw, _) = crate::scen_c06::observe::<G>(shape, Box::new(PlainVals::<G::ScalarField>::new(HashMap::new(), seed)), seed, &arb, &arb_v);
     checks.into_iter().map(|(n, ok, d)| (format!("{} {}", n, d), ok)).collect()
 }
+
+struct ReplayRng {
+    bytes: Vec<u8>,
+    pos: usize,
+    overrun: bool,
+}
+impl rand_core::RngCore for ReplayRng {
+    fn next_u32(&mut self) -> u32 {
+        rand_core::impls::next_u32_via_fill(self)
+    }
+    fn next_u64(&mut self) -> u64 {
+        rand_core::impls::next_u64_via_fill(self)
+    }
+    fn fill_bytes(&mut self, d: &mut [u8]) {
+        for b in d.iter_mut() {
+            if self.pos < self.bytes.len() {
+                *b = self.bytes[self.pos];
+                self.pos += 1;
+            } else {
+                self.overrun = true;
+                *b = 0;
+            }
+        }
+    }
+    fn try_fill_bytes(&mut self, d: &mut [u8]) -> Result<(), rand_core::Error> {
+        self.fill_bytes(d);
+        Ok(())
+    }
+}
+
+/// C09 natively: the prover runs on a plain curve with the logging Merlin; the nonce stream is
+/// re-read from the RNG's logged output and every commitment is opened against the witness and
+/// that stream (reference draw order of the protocol).
+pub fn c09_native<G: AffineRepr + 'static>(shape: &crate::r1cs::Shape, seed: u64) -> Checks {
+    use crate::r1cs::*;
+    use ark_serialize::CanonicalSerialize;
+    merlin::vlog::reset();
+    let mut out: Checks = vec![];
+    let pad = shape.padded();
+    let pc = PedersenGens::<G>::default();
+    let bp = BulletproofGens::<G>::new(pad, 1);
+    let shr = new_shared::<G>(shape, &Default::default(), Box::new(PlainVals::<G::ScalarField>::new(HashMap::new(), seed)));
+    let p_from = merlin::vlog::len();
+    let (proof, _pt) = prove_shape(shape, &shr, &pc, &bp, seed);
+    let proof = match proof {
+        Ok(p) => p,
+        Err(_) => {
+            out.push(("prove succeeds".into(), false));
+            return out;
+        }
+    };
+    let log = merlin::vlog::since(0);
+    let pobj = crate::scen_r1cs::first_new_obj(&log, p_from);
+    let sh = shr.borrow();
+    let (n1, n2) = shape.gates();
+    let n = n1 + n2;
+    let m = shape.commits();
+    let build: Vec<&merlin::vlog::Event> = log.iter().filter(|e| e.op == "build_rng" && e.obj == pobj).collect();
+    out.push(("exactly one transcript RNG is built".into(), build.len() == 1));
+    if build.len() != 1 {
+        return out;
+    }
+    let rid = u64::from_le_bytes(build[0].data[..8].try_into().unwrap());
+    let rops: Vec<&merlin::vlog::Event> = log.iter().filter(|e| e.obj == rid).collect();
+    let rekeys: Vec<&&merlin::vlog::Event> = rops.iter().filter(|e| e.op == "rekey").collect();
+    let mut keyed = rekeys.len() == m;
+    for (j, e) in rekeys.iter().enumerate() {
+        let mut bytes = vec![];
+        if let Some(vb) = sh.v_blinding.get(j) {
+            vb.serialize_uncompressed(&mut bytes).unwrap();
+        }
+        keyed &= e.data == bytes && e.label == b"v_blinding";
+    }
+    out.push((format!("RNG rekeyed once per commitment with its blinding factor ({} rekeys, {} commitments)", rekeys.len(), m), keyed));
+    out.push(("RNG finalized with the caller's randomness".into(), rops.iter().filter(|e| e.op == "finalize" && e.data.len() == 32).count() == 1));
+    let stream: Vec<u8> = rops.iter().filter(|e| e.op == "rng_fill").flat_map(|e| e.data.clone()).collect();
+    let mut rr = ReplayRng { bytes: stream, pos: 0, overrun: false };
+    let mut draw = |k: usize| -> Vec<G::ScalarField> { (0..k).map(|_| G::ScalarField::rand(&mut rr)).collect() };
+    let b1 = draw(3);
+    let sl1 = draw(n1);
+    let sr1 = draw(n1);
+    let b2 = if n2 > 0 { draw(3) } else { vec![G::ScalarField::zero(); 3] };
+    let sl2 = draw(n2);
+    let sr2 = draw(n2);
+    let tb = draw(5);
+    out.push(("the nonce stream is exactly as long as the protocol's draws".into(), !rr.overrun && rr.pos == rr.bytes.len()));
+    let gens = bp.share(0);
+    let (Gs, Hs) = (gens.verif_G(pad), gens.verif_H(pad));
+    let (pts, _scs, _ipp) = proof.verif_parts();
+    let open = |lo: usize, hi: usize, which: usize, sl: &[G::ScalarField], sr: &[G::ScalarField], bl: &[G::ScalarField]| -> [G::Group; 3] {
+        let _ = which;
+        let mut ai: G::Group = pc.B_blinding * bl[0];
+        let mut ao: G::Group = pc.B_blinding * bl[1];
+        let mut s: G::Group = pc.B_blinding * bl[2];
+        for i in lo..hi {
+            ai = ai + Gs[i] * sh.gates[i].0 + Hs[i] * sh.gates[i].1;
+            ao = ao + Gs[i] * sh.gates[i].2;
+            s = s + Gs[i] * sl[i - lo] + Hs[i] * sr[i - lo];
+        }
+        [ai, ao, s]
+    };
+    let e1 = open(0, n1, 0, &sl1, &sr1, &b1);
+    for k in 0..3 {
+        out.push((format!("{} opens to witness/masking part + its own fresh blinding draw", ["A_I1", "A_O1", "S1"][k]), pts[k].into_group() == e1[k]));
+    }
+    if n2 > 0 {
+        let e2 = open(n1, n, 1, &sl2, &sr2, &b2);
+        for k in 0..3 {
+            out.push((format!("{} opens to witness/masking part + its own fresh blinding draw", ["A_I2", "A_O2", "S2"][k]), pts[3 + k].into_group() == e2[k]));
+        }
+    } else {
+        out.push(("absent second phase: identity placeholders".into(), pts[3].is_zero() && pts[4].is_zero() && pts[5].is_zero()));
+    }
+    let mut all: Vec<G::ScalarField> = vec![];
+    for v in [&b1, &sl1, &sr1, &sl2, &sr2, &tb] {
+        all.extend(v.iter().copied());
+    }
+    if n2 > 0 {
+        all.extend(b2.iter().copied());
+    }
+    let mut sorted = all.clone();
+    sorted.sort();
+    sorted.dedup();
+    out.push(("all nonces are pairwise distinct".into(), sorted.len() == all.len()));
+    out
+}
